@@ -146,7 +146,13 @@ func (w *world) runOp(rec *opRec) {
 			return
 		}
 		id := sr.meta.Id
-		loc, err := w.cache.LocateRegionByID(bo, id)
+		var loc *locate.KeyLocation
+		var err error
+		if op.Flag {
+			loc, err = w.cache.LocateRegionByIDFromPD(bo, id) // bypasses the cache, installs nothing
+		} else {
+			loc, err = w.cache.LocateRegionByID(bo, id)
+		}
 		if rec.Err = errStr(err); err != nil {
 			return
 		}
@@ -192,14 +198,19 @@ func (w *world) runOp(rec *opRec) {
 			// call started, the uncovered key was held by a valid cached region with an unbounded end
 			// key, and that region is missing from the result.
 			sig, extra := "BatchLocateKeyRanges", ""
-			if e := validAt(before, c.gapAt); e != nil && len(e.End) == 0 {
+			for i := range before {
+				e := &before[i]
+				if !e.InSorted || !e.Valid || len(e.End) != 0 || bytes.Compare(e.Start, c.gapAt) > 0 {
+					continue
+				}
 				dropped := true
 				for _, s := range ss {
 					dropped = dropped && !(s.id == e.ID && s.ver == e.Ver)
 				}
 				if dropped {
 					sig = "BatchLocateKeyRanges/cached-unbounded-last-region-dropped"
-					extra = fmt.Sprintf("; when the call started the cache held the valid region %s for that key; index then: %s", fmtEntry(*e), fmtIndex(before))
+					extra = fmt.Sprintf("; when the call started the cache held the valid region %s, which contains that key and is not in the result; index then: %s", fmtEntry(*e), fmtIndex(before))
+					break
 				}
 			}
 			w.violate("range-gap", sig, fmt.Sprintf("%s returned %s: taken in order they do not cover range #%d [%q,%q), first uncovered key %q%s", call, fmtSpans(ss), c.rng, rs[c.rng][0], rs[c.rng][1], c.gapAt, extra))
